@@ -35,6 +35,9 @@ type TConfig struct {
 	// LibAuth: the operator uses the library's own LongTermTURNRESTAuthHandler (time-windowed
 	// usernames "<expiry>:<user>", password = base64(HMAC-SHA1(secret, username)))
 	LibAuth bool `json:"lib_auth,omitempty"`
+	// SlowCreatedMs: the operator's OnAllocationCreated handler takes this long (virtual time; the
+	// library calls it without holding a lock)
+	SlowCreatedMs int `json:"slow_created_ms,omitempty"`
 }
 
 // LibAuthSecret is the shared secret of worlds configured with LibAuth.
@@ -273,6 +276,9 @@ func newTWorld(cfg TConfig) (*TWorld, error) {
 		EventHandler: turn.EventHandler{
 			OnAllocationCreated: func(src, _ net.Addr, _, user, _ string, relay net.Addr, _ int) {
 				w.ev(Event{Kind: "AllocCreated", Src: addrStr(src), Relay: addrStr(relay), User: user})
+				if cfg.SlowCreatedMs > 0 {
+					time.Sleep(time.Duration(cfg.SlowCreatedMs)*time.Millisecond + 137*time.Microsecond)
+				}
 			},
 			OnAllocationDeleted: func(src, _ net.Addr, _, user, _ string) {
 				w.ev(Event{Kind: "AllocDeleted", Src: addrStr(src), User: user})
